@@ -8,7 +8,7 @@ INCLUDE = ['n_pretest_max', 'n_designs', 'budget_range', 'n_geos_max', 'treatmen
 RULE = ('Engine A: panels with T in {12,14,16} (incl. a missing cell and shuffled rows) x DEV(3..5, d) over window, '
         'exclusions (eligibility rows, share/budget/n_geos_max), n_designs and statistical parameters, both searches, '
         'EVERY position of the result list; REUSE: the same on a data object that already served another matched-markets '
-        'object with a longer window / other geo set; MINCORR: min_corr at every two-decimal value adjacent to the correlation of some design (strong and weak panel); CALLER-SIDE: DEV(4,1) where the caller edits the fields of his own parameter object after the search returned (scores read first) and before he reads the designs\' diagnostics. Oracle from the raw frame: diag.x/.y and the copy held by the score equal '
+        'object with a longer window / other geo set; MINCORR: min_corr at every two-decimal value adjacent to the correlation of some design (strong and weak panel). Oracle from the raw frame: diag.x/.y and the copy held by the score equal '
         'bit for bit the sums over the reported IDs in the most recent n_pretest_max dates; corr and required impact '
         'equal the closed forms (1e-9); verdicts equal those of a fresh diagnostics object; score tuple equals the '
         'oracle composition (budget_max/RI for exhaustive with budget, else 1/RI); diagnostics objects of different '
@@ -35,10 +35,6 @@ def cases(tier, seed):
     # min_corr at every two-decimal value adjacent to some design's correlation (correlation test vs ROUNDED correlation)
     for pp in ({'name': 'B', 'G': 4, 'T': 14}, {'name': 'W', 'G': 4, 'T': 16, 'seed': 1}):
         out += spaces.mincorr_threshold_space(pp, base_kw={'n_designs': 100})
-    # caller-side action after the search: the caller edits HIS parameter object before he reads the designs' diagnostics
-    for c in spaces.with_methods(spaces.dev_configs({'name': 'B', 'G': 4, 'T': 14}, 1, INCLUDE, base_kw={'n_designs': 6}, k_values=(50,))):
-        if spaces.precondition_ok(c):
-            out.append(dict(c, caller_edits_parameters_after=True, deviations=c['deviations'] + 1))
     out.sort(key=lambda c: (c['deviations'], c['panel']['G']))
     return out
 
